@@ -173,6 +173,9 @@ Fixpoint fent (root : node) (ops : list fop) : list entry :=
     end ++ fent (out_state (frun_op root o)) r
   end.
 
+(* the trie has the (skeleton) pattern q registered with handler id hid *)
+Definition has_hid (n : node) (q : list ptok) (hid : N) : Prop := exists g, has_pattern n q (hid, g).
+
 (* ================= mounted arrangements ================= *)
 
 (* a literal pattern token (what the tokens of a valid path are) *)
@@ -238,3 +241,34 @@ Definition top_mux (ss : list sloc) (k : nat) : option nat :=
   match nth_error ss k with Some (_, t, _) => Some t | None => None end.
 Definition abs_toks (ss : list sloc) (k : nat) : list bytes :=
   match nth_error ss k with Some (_, _, a) => a | None => [] end.
+
+(* the Handle calls that lie at or below the root of mux k (same top-level trie, full token list
+   starting with k's own position), with their pattern relative to k's root *)
+Fixpoint strip_pre (pre l : list bytes) : option (list bytes) :=
+  match pre, l with
+  | [], _ => Some l
+  | a :: pre', b :: l' => if beq a b then strip_pre pre' l' else None
+  | _ :: _, [] => None
+  end.
+Definition rel_toks (st : state) (k : nat) (r : sreg) : option (list bytes) :=
+  match top_of st k, top_of st (sr_mux r) with
+  | Some (t, a), Some (t', a') =>
+    if Nat.eqb t' t then strip_pre a (a' ++ split_pattern (sr_pat r)) else None
+  | _, _ => None
+  end.
+Definition mcands (st : state) (R : list sreg) (k : nat) : list (list bytes * sreg) :=
+  flat_map (fun r => match rel_toks st k r with Some rel => [(rel, r)] | None => [] end) R.
+Definition ckey (x : list bytes * sreg) : list ptok := skel (map ptok_of (fst x)).
+
+(* what arrangement_invariant compares: a candidate without the mux it was registered on, and
+   two lookup results up to handler identity (listeners are compared by the oracle only; the group
+   also contains the resource name when no group is set, so it is compared for equal names) *)
+Definition cproj (x : list bytes * sreg) : list bytes * N * bytes * bool :=
+  (fst x, sr_hid (snd x), sr_grp (snd x), sr_par (snd x)).
+Definition same_result (n1 n2 : bytes) (r1 r2 : lres) : Prop :=
+  match r1, r2 with
+  | LNone, LNone => True
+  | LHit h1 _ p1 g1, LHit h2 _ p2 g2 => h1 = h2 /\ p1 = p2 /\ (n1 = n2 -> g1 = g2)
+  | _, _ => False
+  end.
+
